@@ -9,7 +9,7 @@ from .runner import hyp_run
 PROP = "C03"
 LEVEL = "exploration"
 RULE = (
-    "every token sequence of <= 4 (quick) / 6 (thorough) tokens over a 15-token vocabulary, exhaustively, plus strings from four families (random derivations of the documented grammar rendered with minimal or explicit "
+    "every token sequence of <= 4 (quick) / 6 (thorough) tokens over a 16-token vocabulary, exhaustively, plus strings from four families (random derivations of the documented grammar rendered with minimal or explicit "
     "parentheses, implicit multiplication, whitespace and bracket/en-dash aliases; rule-shaped templates; 1-3 "
     "character-level mutations of those; token soups over the tokenizer alphabet); oracle = an independent "
     "reference tokenizer+parser written from the documented grammar: accept/reject must coincide, and on accept the "
@@ -170,11 +170,11 @@ def replay(ctx, case):
     check_string(ctx, case)
 
 
-TOKENS = ["x", "y", "2", "0", "0.5", "+", "-", "*", "/", "^", "!", "=", "(", ")", "sgn"]
+TOKENS = ["x", "y", "e", "2", "0", "0.5", "+", "-", "*", "/", "^", "!", "=", "(", ")", "sgn"]
 
 
 def run(ctx):
-    # bounded-exhaustive part: every token sequence up to a length bound over a 15-token vocabulary
+    # bounded-exhaustive part: every token sequence up to a length bound over a 16-token vocabulary
     import itertools
 
     bound = 4 if ctx.tier == "quick" else 6
